@@ -2015,3 +2015,75 @@ class ResidualError(Contract):
                 if isinstance(M, SArr) and len(M.shape) == 2:
                     yield 'M', z3.Implies(z3.And(zi(i) >= 1, zi(i) < zi(op.order)), M.shape[1] == lst_get(op.ranks, zi(i)) * lst_get(x.ranks, zi(i)) + lst_get(b.ranks, zi(i)))
         return inv
+
+
+@register
+class Diag(Contract):
+    """TT.diag(diag_list): the listed modes (column dimension 1) become diagonal d x d modes.  Structural clauses: a valid
+    fresh tensor train with unchanged order, row dimensions and ranks, column dimension d for the listed modes, nothing of
+    self written or shared."""
+    name, func = 'TT.diag', 'diag'
+    props = ('C02', 'C06')
+    KI, KK, KL = 'i in diag_list', 'k in range(r1)', 'l in range(r2)'
+    loop_ordinals = {0: KI, 1: KK, 2: KL}
+    list_kinds = {'cores': 'arr'}
+
+    def setup(self, ex, state, inst):
+        m0 = ex.ctx.mark0
+        me = mk_tt(state, 'self', m0)
+        n = fresh('ndiag')
+        dl = mk_int_list(state, 'diag_list', n)
+        return {'self': me, 'diag_list': dl}
+
+    def requires(self, S):
+        me, dl = S.a['self'], S.a['diag_list']
+        d = zi(me.order)
+        n = zi(dl.len_term())
+        # derived from the code: cores[i][k, :, 0, l] reads column index 0 of the listed modes - a vector-type mode is diagonalised
+        yield 'listed-modes-exist-and-have-col-dim-1', FA(0, n, lambda q: z3.And(lst_get(dl, q) >= 0, lst_get(dl, q) < d, lst_get(me.col_dims, lst_get(dl, q)) == 1))
+        q1, q2 = fresh('q1'), fresh('q2')
+        yield 'listed-modes-distinct', z3.ForAll([q1, q2], z3.Implies(z3.And(0 <= q1, q1 < q2, q2 < n), lst_get(dl, q1) != lst_get(dl, q2)))
+
+    def in_list(self, dl, j, upto=None):
+        q = fresh('qd')
+        n = zi(dl.len_term()) if upto is None else zi(upto)
+        return z3.Exists([q], z3.And(0 <= q, q < n, lst_get(dl, q) == j))
+
+    def ensures(self, S, res):
+        me, dl = S.o['self'], S.o['diag_list']
+        d = zi(me.order)
+        yield 'returns-TT', isinstance(res, STT)
+        if not isinstance(res, STT):
+            return
+        yield 'order', zi(res.order) == d
+        yield 'row_dims', same_ints(res.row_dims, me.row_dims, d)
+        yield 'ranks', same_ints(res.ranks, me.ranks, d + 1)
+        yield 'col_dims', FA(0, d, lambda j: lst_get(res.col_dims, j) == z3.If(self.in_list(dl, j), lst_get(me.row_dims, j), lst_get(me.col_dims, j)))
+        yield 'result-fresh', z3.And(meta_fresh(res, S.mark0), cores_fresh(res, S.mark0))
+
+    def canary(self, S, res):
+        return zi(res.order) == zi(S.o['self'].order) + 1 if isinstance(res, STT) else None
+
+    def invariant(self, key, inst):
+        me_ = self
+
+        def outer(V, pos, k):
+            me, dl, cores = V.old('self'), V.old('diag_list'), V['cores']
+            d = zi(me.order)
+            yield 'cores', z3.And(zi(cores.len_term()) == d, cores.ref >= V.mark0, FA(0, d, lambda j: z3.And(
+                core_shape_ok(lst_get(cores, j), lst_get(me.ranks, j), lst_get(me.row_dims, j),
+                              z3.If(me_.in_list(dl, j, upto=pos), lst_get(me.row_dims, j), lst_get(me.col_dims, j)), lst_get(me.ranks, j + 1)),
+                lst_get(cores, j).buf >= V.mark0)))
+
+        def inner(V, i, k):
+            cd = V['core_diag']
+            yield 'core_diag', z3.And(cd.buf >= V.mark0, cd.shape[0] == zi(V['r1']), cd.shape[1] == zi(V['d']), cd.shape[2] == zi(V['d']), cd.shape[3] == zi(V['r2']), cd.cplx)
+            yield from outer_keep(V)
+
+        def outer_keep(V):
+            # the inner loops only fill the new core: the list of cores is as at the entry of the loop
+            cores, c0 = V['cores'], V.entry['cores']
+            yield 'cores-unchanged', z3.And(cores.ref == c0.ref, zi(cores.len_term()) == zi(c0.len_term()),
+                                            FA(0, zi(cores.len_term()), lambda j: z3.And(lst_get(cores, j).buf == lst_get(c0, j).buf, zi(lst_get(cores, j).ndim) == zi(lst_get(c0, j).ndim),
+                                                                                         *[a == b for a, b in zip(lst_get(cores, j).shape, lst_get(c0, j).shape)])))
+        return {self.KI: outer, self.KK: inner, self.KL: inner}.get(key)
